@@ -1,21 +1,17 @@
-"""C19 — float angles are approximated within tolerance by encodable rotations (claimed in part).
+"""C19 - float angles are approximated within tolerance by encodable rotations.
 
-The numerical bound itself (floating-point error, all tolerances) is not decided.  Decided are the structural
-clauses without which the greedy dyadic expansion cannot meet its tolerance, read from
-sdk/toolbox/state_prep.py::get_angle_spec_from_float and sdk/builder.py::_build_cmds_single_qubit_rotation:
+Decided by executing the repository's own functions in the checker's interpreter (nqsa/circuit.py) on enumerated inputs:
 
-C19.M  the angle is reduced modulo a full turn and expressed in units of pi before the expansion
-C19.G  greedy invariant: the loop runs while the remainder exceeds the tolerance; with that one-sided test the
-       remainder must never become negative, i.e. each numerator under-approximates (floor) remainder * 2^d and the
-       remainder is decreased by exactly the recorded n / 2^d
-C19.B  each step is encodable: d is the floor of log2(n_max / remainder) with n_max = 2^IMMEDIATE_BITS - 1 (so that
-       n <= n_max), n <= n_max is asserted before the step is recorded
-C19.S  the simplification divides n and decrements d together, only while n is even, and writes back to the same slot
-C19.F  steps are only dropped by the final filter when they lie below the tolerance the caller asked for
-       (the filter bound is compared with the largest exponent the loop can produce for the default tolerance and
-       for the property's smallest tolerance 1e-9)
+C19.G  get_angle_spec_from_float(angle, tol) returns for every executed angle x tolerance, and the steps it returns add up - in units
+       of pi, in exact rational arithmetic - to the angle modulo a full turn within the tolerance; an overshoot (sum above the angle) is
+       reported separately
+C19.B  every returned step is a pair of plain integers 0 <= n, d <= 2^IMMEDIATE_BITS - 1 (the rotation instruction's immediate fields)
 C19.E  the builder emits one rotation per step, in order, with the step's (n, d), the same instruction and qubit;
        Qubit.rot_X/Y/Z hand `angle` through
+
+The executed angles (expansion_domain): all dyadic multiples of pi up to 2 pi with exponent <= 7, a spread of finer ones up to exponent 40,
+a regular grid, angles within every tolerance of 0 / pi / 2 pi, angles whose float reduction modulo 2 pi is exactly a full turn, negative
+angles and angles far beyond a full turn; tolerances: the default, 1e-2, 1e-3, 1e-6, 1e-9.
 """
 from __future__ import annotations
 
@@ -27,461 +23,142 @@ from .. import astutil as A
 from .. import guards as G
 from ..model import AnalysisError, Unknown, dotted, src
 
-TECHNIQUE = "loop-invariant shape rules on the greedy expansion (one-sided guard => under-approximating step, recorded step = subtracted step), constant evaluation of bounds, emission pairing in the builder (static analysis)"
-ENGINES = ["model", "guards"]
+TECHNIQUE = ("abstract execution: get_angle_spec_from_float and the rotation builder are run by the checker's own AST interpreter on an enumerated set of angles x tolerances "
+             "(numpy's floor / log2 as Python float arithmetic), the results judged in exact rational arithmetic against encodability and the tolerance; nothing of the repository is imported or run by Python")
+ENGINES = ["model", "circuit"]
 EXPLANATION = (
-    "get_angle_spec_from_float is read from its syntax tree: reduction modulo 2*pi; the while loop's guard and the defining expressions "
-    "of d, n and the remainder update are classified (floor / round / ceil; same n and d recorded and subtracted); n_max is evaluated from "
-    "encoding.IMMEDIATE_BITS; the simplification loop must halve n and decrement d together; the final filter bound is compared with the "
-    "largest exponent reachable for a tolerance. In the builder, the float-angle arm must emit one rotation per returned step with that "
-    "step's n and d on the same instruction and qubit, and Qubit.rot_X/Y/Z must forward `angle`."
-    ' C19.E executes the rotation builder with get_angle_spec_from_float modelled; further conjuncts of the expansion loop guard are judged (a step cap K is accepted iff 2*(2/n_max)^K is within the smallest tolerance in scope); a step simplification inside the expansion loop is judged by C19.S in place.'
+    "get_angle_spec_from_float is executed by the checker's interpreter for about 1000 angles x 5 tolerances (every dyadic multiple of pi with exponent <= 7, finer ones up to "
+    "exponent 40, a regular grid, the neighbourhoods of 0, pi and 2 pi at every tolerance, angles that reduce to exactly a full turn, negative and very large angles): it must return, "
+    "every step must be a pair of integers in 0..2^IMMEDIATE_BITS-1, and the steps must add up (exact rationals, units of pi) to the angle modulo 2 pi within the tolerance. "
+    "However the function is written - helpers, generators, loops of another form - only what it returns is judged. "
+    "C19.E executes the rotation builder with the decomposition modelled: one rotation per step, in order, same instruction and qubit; an explicit (n, d) is one step; templates pass; invalid steps are refused."
 )
 LEVEL_TEXT = (
-    "Static analysis, partial: the structural necessary conditions of the tolerance clause (greedy invariant, encodability guard, "
-    "simplification, no step dropped above the tolerance, one rotation per step). Not decided: the floating-point error of the "
-    "expansion itself, i.e. that the sum is within tolerance for every finite angle."
+    "Abstract execution over an enumerated input domain: exact verdicts (rational arithmetic) for every executed angle and tolerance, including the boundary cases the property names "
+    "(negative, beyond 2 pi, dyadic multiples, within tolerance of 0 and of 2 pi). Not decided: that the same holds for every other finite float angle - no static bound on the "
+    "floating-point error of the greedy loop for all inputs is derived."
 )
-LEVEL_NOTE = "floating-point rounding inside the expansion (np.log2, division) is not modelled; only the shape of the algorithm is decided"
+LEVEL_NOTE = "the quantifier `every finite float angle` is covered by an enumerated domain, not by a proof over all floats; the float reduction the code performs is compared with the exact reduction up to 1e-12 + 1e-15*|angle| (in units of pi)"
 ASSUMPTIONS = [LEVEL_NOTE]
 SP = "netqasm.sdk.toolbox.state_prep"
 MIN_TOL = 1e-9  # smallest tolerance the property quantifies over
 
 
-def _strip_int(e):
-    while isinstance(e, ast.Call) and dotted(e.func) == "int" and len(e.args) == 1:
-        e = e.args[0]
-    return e
-
-
-def rounding_kind(e) -> Optional[str]:
-    """'floor' | 'ceil' | 'round' | 'trunc' (int() of a plain expression) for the outermost rounding of e; None if none"""
-    had_int = isinstance(e, ast.Call) and dotted(e.func) == "int"
-    inner = _strip_int(e)
-    if isinstance(inner, ast.Call):
-        name = (dotted(inner.func) or "").split(".")[-1]
-        if name in ("floor",):
-            return "floor"
-        if name in ("ceil",):
-            return "ceil"
-        if name in ("round", "rint", "around"):
-            return "round"
-    if isinstance(inner, ast.BinOp) and isinstance(inner.op, ast.FloorDiv):
-        return "floor"
-    if had_int:
-        return "trunc"
-    return None
-
-
-def rounded_arg(e):
-    inner = _strip_int(e)
-    if isinstance(inner, ast.Call) and inner.args:
-        return inner.args[0]
-    if isinstance(inner, ast.BinOp) and isinstance(inner.op, ast.FloorDiv) and isinstance(inner.right, ast.Constant) and inner.right.value == 1:
-        return inner.left
-    return inner
-
-
-def _fold_step_temporaries(body, rest):
-    """A name bound once per step by a plain assignment, before all of its uses, to a call-free arithmetic expression that
-    does not mention the remainder (`scale = 2 ** d`) only names that expression: its uses read the expression directly.
-    The operands of such an expression are themselves bound once per step, so nothing can change between the binding and a use."""
-    import copy
-    body = list(body)
-    counts = {}
-    for st in body:
-        for n in ast.walk(st):
-            if isinstance(n, ast.Name) and isinstance(n.ctx, ast.Store):
-                counts[n.id] = counts.get(n.id, 0) + 1
-        if isinstance(st, ast.AugAssign) and isinstance(st.target, ast.Name):
-            counts[st.target.id] = counts.get(st.target.id, 0) + 1
-    changed = True
-    while changed:
-        changed = False
-        for i, st in enumerate(body):
-            if not (isinstance(st, ast.Assign) and len(st.targets) == 1 and isinstance(st.targets[0], ast.Name) and counts.get(st.targets[0].id) == 1):
-                continue
-            name, val = st.targets[0].id, st.value
-            if any(isinstance(n, ast.Call) for n in ast.walk(val)) or A.contains_name(val, rest) or A.contains_name(val, name):
-                continue
-            if any(counts.get(n.id, 0) > 1 for n in ast.walk(val) if isinstance(n, ast.Name)):
-                continue
-            used_before = any(A.contains_name(b, name) for b in body[:i])
-            used_in_tuple = any(isinstance(c, ast.Call) and isinstance(c.func, ast.Attribute) and c.func.attr == "append" and A.contains_name(c, name) for b in body for c in ast.walk(b))
-            if used_before or used_in_tuple:
-                continue
-
-            class R(ast.NodeTransformer):
-                def visit_Name(self, n):
-                    return copy.deepcopy(val) if n.id == name and isinstance(n.ctx, ast.Load) else n
-            body = body[:i] + [R().visit(b) for b in body[i + 1:]]
-            for b in body:
-                ast.fix_missing_locations(b)
-            changed = True
-            break
-    return body
+def expansion_domain(default_tolerance_only=False):
+    """the angles and tolerances the decomposition is executed on: every dyadic multiple k * pi / 2^j of pi in [0, 2 pi] with j <= 7, a
+    spread of finer ones (j up to 40: single steps deep in the exponent range), a regular grid of ordinary angles, angles within the
+    tolerances of 0 and of 2 pi, negative angles and angles far beyond a full turn; tolerances: the default and 1e-2 ... 1e-9"""
+    angles = []
+    for j in range(0, 8):
+        for k in range(0, 2 ** (j + 1) + 1):
+            angles.append(k * math.pi / 2 ** j)
+    for j in range(8, 41):
+        for k in (1, 3, 2 ** (j - 1) + 1, 2 ** j - 1, 2 ** j + 5, 2 ** (j + 1) - 1):
+            angles.append(k * math.pi / 2 ** j)
+    angles += [i * 0.0173 for i in range(0, 364)]
+    for eps in (1e-2, 1e-4, 9.9e-5, 1.01e-4, 1e-5, 1e-6, 1e-9, 3e-10, 1e-12, 1e-15, 5e-324):
+        angles += [eps, 2 * math.pi - eps, 2 * math.pi + eps, math.pi - eps, math.pi + eps]
+    angles += [-1e-16, -1e-17, -3e-16, -1e-300, -5e-324, -0.0, 2 * math.pi - 4e-16, 2 * math.pi * (1 - 2 ** -53)]  # (these reduce to a full turn exactly, or to the float next to it)
+    angles += [-0.3, -1e-7, -math.pi, -2 * math.pi - 0.5, -100.25, 7.0, 100.5, 12345.678, 1e6 + 0.125, 2 * math.pi, 4 * math.pi, math.pi / 3, 2.0, 1.0]
+    tols = [None] if default_tolerance_only else [None, 1e-2, 1e-3, 1e-6, 1e-9]
+    return angles, tols
 
 
 def check_expansion(ctx, rule="C19", only=None, default_tolerance_only=False):
-    """only: iterable of sub-rule letters to evaluate (None = all)"""
+    """get_angle_spec_from_float executed by the checker's interpreter (numpy's floor / log2 / pi are the library's own arithmetic on
+    Python floats) on the enumerated angles x tolerances of expansion_domain().  For every run:
+      - the result is a list of (n, d) steps of plain integers with 0 <= n <= 2^IMMEDIATE_BITS - 1 and 0 <= d <= 2^IMMEDIATE_BITS - 1
+        (both travel in the rotation instruction's immediate fields)                                                    [B]
+      - the steps add up, in units of pi and in exact rational arithmetic, to the angle modulo a full turn within the tolerance
+        (the code's tolerance is on the angle in units of pi); a remainder on the other side of the angle, a missing reduction
+        modulo 2 pi, the wrong unit or a step dropped above the tolerance all show here                                      [G, M, F]
+      - the call returns: it does not raise for a finite angle and does not loop for ever (a bounded number of interpreter steps)  [G]
+    The verdicts are exact for the executed inputs; that the same holds for every other finite float is not decided (LEVEL_NOTE)."""
+    from fractions import Fraction
+    from .. import circuit as C
     repo, ev = ctx.repo, ctx.ev
     m = repo.module(SP)
     fn = m.functions.get("get_angle_spec_from_float")
     if fn is None:
         raise AnalysisError("state_prep.get_angle_spec_from_float not found")
     ctx.fn("state_prep.get_angle_spec_from_float")
-    import copy
-    fn = copy.deepcopy(fn)  # the loop body is rewritten below (per-step temporaries folded); everything is judged on this copy
-    want = lambda letter: only is None or letter in only
     R = lambda letter: f"{rule}.{letter}" if rule == "C19" else rule
+    try:
+        enc_m = repo.module("netqasm.lang.encoding")
+        bits = ev.eval(ast.Name(id="IMMEDIATE_BITS", ctx=ast.Load()), enc_m)
+    except Unknown as ex_:
+        raise AnalysisError(f"encoding.IMMEDIATE_BITS cannot be evaluated: {ex_}")
+    n_max = 2 ** bits - 1
     params = A.param_names(fn)
     if len(params) < 2:
         raise AnalysisError("get_angle_spec_from_float: expected (angle, tol)")
-    angle, tol = params[0], params[1]
-    loops = [st for st in fn.body if isinstance(st, ast.While)]
-    if len(loops) != 1:
-        raise AnalysisError(f"get_angle_spec_from_float: expected one top-level while loop, found {len(loops)}")
-    lp = loops[0]
-    ctx.anchor(R("G"), "greedy expansion loop", 1, 1)
-    # ---- the guard
-    t = lp.test
-    rest = None
-    two_sided = False
-    bound_ok = True
-    extras = []
-    if isinstance(t, ast.BoolOp) and isinstance(t.op, ast.And):
-        # `<remainder> > tol and <more>`: the further conjuncts can only end the expansion earlier; each is judged below
-        main = [c for c in t.values if isinstance(c, ast.Compare) and len(c.ops) == 1 and isinstance(c.ops[0], (ast.Gt, ast.GtE)) and A.contains_name(c.comparators[0], tol)]
-        if len(main) == 1:
-            extras = [c for c in t.values if c is not main[0]]
-            t = main[0]
-    if isinstance(t, ast.Compare) and len(t.ops) == 1 and isinstance(t.ops[0], (ast.Gt, ast.GtE)) and A.norm(t.comparators[0]) != tol:
-        # the remainder is compared with something derived from the tolerance: it must not exceed the tolerance itself
-        # (the remainder is in units of pi, as is the documented tolerance)
-        bexpr = A.expand(t.comparators[0], A.single_defs(fn))
+    tol_default = None
+    if fn.args.defaults:
         try:
-            for probe in (0.5, 1e-4, 1e-9):
-                v = G.peval(bexpr, {tol: probe, "np.pi": math.pi, "math.pi": math.pi, "pi": math.pi})
-                if not isinstance(v, (int, float)) or v > probe * (1 + 1e-12):
-                    bound_ok = False
-        except Unknown as ex_:
-            ctx.error(R("G"), f"loop bound `{src(t.comparators[0])}` cannot be evaluated ({ex_})")
-            return
-        ctx.check(R("G"), "get_angle_spec_from_float:loop-runs-until-the-remainder-is-within-the-tolerance", bound_ok,
-                  f"the expansion stops as soon as the remainder is below `{src(bexpr)}`, which is larger than the tolerance `{tol}` the function documents "
-                  "(remainder and tolerance are both in units of pi): the returned steps can miss the angle by more than the tolerance", repo.loc(m, lp))
-        t = ast.Compare(left=t.left, ops=t.ops, comparators=[ast.Name(id=tol, ctx=ast.Load())])
-    if isinstance(t, ast.Compare) and len(t.ops) == 1 and isinstance(t.ops[0], (ast.Gt, ast.GtE)) and A.norm(t.comparators[0]) == tol:
-        if isinstance(t.left, ast.Name):
-            rest = t.left.id
-        elif isinstance(t.left, ast.Call) and dotted(t.left.func) in ("abs", "np.abs", "math.fabs") and isinstance(t.left.args[0], ast.Name):
-            rest, two_sided = t.left.args[0].id, True
-    if rest is None:
-        ctx.error(R("G"), f"loop guard `{src(t)}` is not `<remainder> > {tol}` (or abs of it)")
-        return
-    if extras:
-        # A further stop condition is harmless only if it cannot be false while the remainder is still above the tolerance.
-        #  - a test implied by `remainder > tol` (tol is positive): remainder > 0, >= 0, != 0
-        #  - a cap on the number of steps `len(steps) < K`: each step leaves less than 2 / n_max of the remainder
-        #    (remainder * 2^d lies in (n_max / 2, n_max] and its integer part is removed), the first remainder is below 2,
-        #    so K steps suffice for every angle iff 2 * (2 / n_max)^K <= the smallest tolerance in scope
-        sdefs = A.single_defs(fn)
-        nmax_v = None
-        for c_ in ast.walk(lp):
-            # the numerator bound is what the exponent is computed from: log2(<n_max> / remainder)
-            if isinstance(c_, ast.Call) and (dotted(c_.func) or "").split(".")[-1] == "log2" and c_.args and isinstance(c_.args[0], ast.BinOp) and isinstance(c_.args[0].op, ast.Div) and A.norm(c_.args[0].right) == rest:
-                v_ = ev.try_eval(A.expand(c_.args[0].left, sdefs), m)
-                if isinstance(v_, int) and v_ > 2:
-                    nmax_v = v_
-        tol_min = 1e-4 if default_tolerance_only else 1e-9
-        for c in extras:
-            verdict = None
-            why_ = ""
-            if isinstance(c, ast.Compare) and len(c.ops) == 1 and A.norm(c.left) == rest and isinstance(c.comparators[0], ast.Constant) and c.comparators[0].value == 0 and isinstance(c.ops[0], (ast.Gt, ast.GtE, ast.NotEq)):
-                verdict = True
-            elif isinstance(c, ast.Compare) and len(c.ops) == 1 and isinstance(c.ops[0], (ast.Lt, ast.LtE)) and isinstance(c.left, ast.Call) and dotted(c.left.func) == "len" and nmax_v:
-                k_ = ev.try_eval(A.expand(c.comparators[0], sdefs), m)
-                if isinstance(k_, int):
-                    steps = k_ + (1 if isinstance(c.ops[0], ast.LtE) else 0)
-                    left_over = 2.0 * (2.0 / nmax_v) ** steps
-                    verdict = left_over <= tol_min
-                    why_ = (f"the expansion stops after {steps} steps whatever the remainder; a step removes all but at most 2/{nmax_v} of it, so {steps} steps only guarantee "
-                            f"a remainder below {left_over:.3g} (in units of pi) - above the tolerance {tol_min:g} that is in scope: the returned steps miss the angle by more than the tolerance")
-            if verdict is None:
-                ctx.error(R("G"), f"loop guard conjunct `{src(c)}` is neither implied by the remainder test nor a step cap the checker can evaluate")
-                return
-            ctx.check(R("G"), "get_angle_spec_from_float:loop-runs-until-the-remainder-is-within-the-tolerance:no-earlier-stop", verdict, why_, repo.loc(m, lp), sample={"conjunct": src(c)})
-    # ---- M: reduction and units
-    if want("M"):
-        pre = fn.body[:fn.body.index(lp)]
-        two_pi = False
-        for st in pre:
-            if isinstance(st, ast.AugAssign) and isinstance(st.op, ast.Mod) and A.norm(st.target) == angle:
-                two_pi = _is_const(ev, m, st.value, 2 * math.pi)
-            if isinstance(st, ast.Assign) and A.norm(st.targets[0]) == angle and isinstance(st.value, ast.BinOp) and isinstance(st.value.op, ast.Mod) and A.norm(st.value.left) == angle:
-                two_pi = _is_const(ev, m, st.value.right, 2 * math.pi)
-        rdef = [st.value for st in pre if isinstance(st, ast.Assign) and A.norm(st.targets[0]) == rest]
-        units = len(rdef) == 1 and isinstance(rdef[0], ast.BinOp) and isinstance(rdef[0].op, ast.Div) and A.norm(rdef[0].left) == angle and _is_const(ev, m, rdef[0].right, math.pi)
-        ctx.check(R("M"), "get_angle_spec_from_float:angle-reduced-modulo-a-full-turn", two_pi,
-                  "the angle is not reduced modulo 2*pi before the expansion: angles beyond a full turn (or negative ones) need numerators beyond n_max", repo.loc(m, fn))
-        ctx.check(R("M"), "get_angle_spec_from_float:remainder-in-units-of-pi", units,
-                  f"the remainder is not initialised as {angle} / pi; the steps n / 2^d are fractions of pi", repo.loc(m, fn))
-    # ---- roles inside the loop
-    lp.body = _fold_step_temporaries(lp.body, rest)
-    # a simplification of the step done inside the expansion loop (`while d > 0 and n % 2 == 0: n, d = n // 2, d - 1`) leaves n / 2^d
-    # unchanged when it has the shape rule S demands; it is judged by rule S and set aside for the rules about the expansion itself
-    inloop_simpl = [st for st in lp.body if isinstance(st, ast.While) and len(st.body) == 1 and isinstance(st.body[0], ast.Assign) and isinstance(st.body[0].targets[0], ast.Tuple)
-                    and len(st.body[0].targets[0].elts) == 2 and not st.orelse]
-    inloop_pos = None
-    if len(inloop_simpl) == 1:
-        inloop_pos = lp.body.index(inloop_simpl[0])
-        inloop_before = list(lp.body[:inloop_pos])
-        lp.body = [st for st in lp.body if st is not inloop_simpl[0]]
-    else:
-        inloop_simpl = []
-    body = lp.body
-    defs = {}
-    order = []
-    for st in body:
-        if isinstance(st, ast.Assign) and len(st.targets) == 1 and isinstance(st.targets[0], ast.Name):
-            defs.setdefault(st.targets[0].id, []).append(st)
-            order.append(st)
-    dvar = nvar = None
-    for name, sts in defs.items():
-        v = sts[0].value
-        txt = A.norm(v)
-        if "log2(" in txt or "log(" in txt:
-            dvar = name
-    for name, sts in defs.items():
-        v = sts[0].value
-        if name != dvar and dvar is not None and A.contains_name(v, rest) and A.contains_name(v, dvar):
-            nvar = name
-    if dvar is None or nvar is None:
-        ctx.error(R("G"), "could not identify the exponent and numerator of a step in the expansion loop")
-        return
-    d_expr, n_expr = defs[dvar][0].value, defs[nvar][0].value
-    single = len(defs[dvar]) == 1 and len(defs[nvar]) == 1
-    # subtraction
-    subs = [st for st in body if isinstance(st, ast.AugAssign) and isinstance(st.op, ast.Sub) and A.norm(st.target) == rest]
-    subs += [st for st in body if isinstance(st, ast.Assign) and A.norm(st.targets[0]) == rest]
-    appends = [c for st in body for c in ast.walk(st) if isinstance(c, ast.Call) and isinstance(c.func, ast.Attribute) and c.func.attr == "append"]
-    if want("G"):
-        kind = rounding_kind(n_expr)
-        arg = rounded_arg(n_expr)
-        arg_ok = A.norm(arg) in (f"{rest}*2**{dvar}", f"2**{dvar}*{rest}", f"{rest}*(2**{dvar})", f"{rest}*pow(2,{dvar})")
-        under = kind in ("floor", "trunc")
-        ok = single and arg_ok and (under or (two_sided and kind in ("round", "floor", "trunc")))
-        why = []
-        if not arg_ok:
-            why.append(f"the numerator is computed from `{src(arg)}`, not from remainder * 2^{dvar}")
-        if not (under or two_sided):
-            why.append(f"the numerator is rounded with `{kind}` while the loop only continues for a remainder above +{tol}: a step can overshoot, the remainder turns negative and the loop "
-                       f"stops with an error of up to half a step (2^-{dvar} * pi / 2), far above the tolerance")
-        if not single:
-            why.append("n or d is assigned more than once per step")
-        ctx.check(R("G"), "get_angle_spec_from_float:step-never-overshoots-the-remainder", ok, "; ".join(why) or "ok", repo.loc(m, defs[nvar][0]),
-                  sample={"guard": src(t), "n": src(n_expr), "rounding": kind})
-        sub_ok = False
-        if len(subs) == 1:
-            sv = subs[0].value
-            if isinstance(subs[0], ast.Assign):
-                sv = sv.right if isinstance(sv, ast.BinOp) and isinstance(sv.op, ast.Sub) and A.norm(sv.left) == rest else None
-            sub_ok = sv is not None and A.norm(sv) in (f"{nvar}/2**{dvar}", f"{nvar}/(2**{dvar})", f"{nvar}*2**-{dvar}", f"{nvar}/pow(2,{dvar})")
-        rec_ok = len(appends) == 1 and appends[0].args and A.norm(appends[0].args[0]) == f"({nvar},{dvar})"
-        # nothing rebinding n/d between definition, recording and subtraction: single definitions suffice (checked above)
-        ctx.check(R("G"), "get_angle_spec_from_float:recorded-step-is-the-subtracted-step", sub_ok and rec_ok and single,
-                  f"the loop records `{src(appends[0].args[0]) if appends and appends[0].args else None}` and subtracts `{src(subs[0].value) if subs else None}`; both must be the step ({nvar}, {dvar}) = {nvar} / 2^{dvar}",
-                  repo.loc(m, lp))
-    nmax_name = None
-    if want("B"):
-        # d = floor(log2(n_max / rest))
-        kind = rounding_kind(d_expr)
-        arg = rounded_arg(d_expr)
-        inner = arg.args[0] if isinstance(arg, ast.Call) and (dotted(arg.func) or "").split(".")[-1] == "log2" and arg.args else None
-        ok_d = kind in ("floor", "trunc") and isinstance(inner, ast.BinOp) and isinstance(inner.op, ast.Div) and A.norm(inner.right) == rest
-        nmax_expr = inner.left if ok_d else None
-        nmax_name = nmax_expr.id if isinstance(nmax_expr, ast.Name) else None
-        ctx.check(R("B"), "get_angle_spec_from_float:exponent-is-floor-log2(n_max/remainder)", ok_d,
-                  f"the exponent is `{src(d_expr)}`; it must be the floor of log2(n_max / remainder) so that remainder * 2^d <= n_max", repo.loc(m, defs[dvar][0]))
-        nmax_val = None
-        if nmax_name:
-            for st in fn.body:
-                if isinstance(st, ast.Assign) and A.norm(st.targets[0]) == nmax_name:
-                    nmax_val = ev.try_eval(st.value, m)
-        if nmax_val is None and nmax_expr is not None:  # an expression, or a module-level constant
-            nmax_val = ev.try_eval(nmax_expr, m)
-        bits = ev.try_eval(ast.parse("IMMEDIATE_BITS", mode="eval").body, m)
-        ctx.check(R("B"), "get_angle_spec_from_float:n_max=2^IMMEDIATE_BITS-1", isinstance(nmax_val, int) and isinstance(bits, int) and nmax_val == 2 ** bits - 1,
-                  f"n_max evaluates to {nmax_val}; the numerator field holds 0..{2 ** bits - 1 if isinstance(bits, int) else '?'}", repo.loc(m, fn), sample={"n_max": nmax_val, "IMMEDIATE_BITS": bits})
-        guarded = False
-        if appends:
-            for st in G.dominating_stmts(fn, appends[0]):
-                c = G.raising_condition(st)
-                if c is not None:
-                    # raises when n > n_max
-                    try:
-                        cenv = {nmax_name or "n_max": nmax_val or 255, "IMMEDIATE_BITS": bits if isinstance(bits, int) else 8}
-                        if nmax_expr is not None:
-                            cenv[A.norm(nmax_expr)] = nmax_val or 255
-                        hi = bool(G.peval(c, dict(cenv, **{nvar: (nmax_val or 255) + 1})))
-                        lo = bool(G.peval(c, dict(cenv, **{nvar: (nmax_val or 255)})))
-                        guarded = guarded or (hi and not lo)
-                    except Unknown:
-                        pass
-        ctx.check(R("B"), "get_angle_spec_from_float:numerator-checked-before-recording", guarded,
-                  "a step is recorded without a dominating check that its numerator is at most n_max", repo.loc(m, lp))
-    if want("S") and inloop_simpl:
-        w = inloop_simpl[0]
-        tt = w.test
-        upd = w.body[0]
-        ta, tb = [A.norm(x) for x in upd.targets[0].elts]
-        ok_s, nonneg, detail = False, False, f"`{src(upd)}` under `{src(tt)}`"
-        if isinstance(upd.value, ast.Tuple) and len(upd.value.elts) == 2 and (ta, tb) == (nvar, dvar):
-            va, vb = upd.value.elts
-            half = A.norm(_strip_int(va)) in (f"{ta}/2", f"{ta}//2")
-            dec = A.norm(vb) == f"{tb}-1"
-            try:
-                runs = {(av, dv): bool(G.peval(tt, {ta: av, tb: dv})) for av in (2, 3, 4, 128) for dv in (0, 1, 5)}
-                even_only = all(not r for (av, dv), r in runs.items() if av % 2 == 1) and all(r for (av, dv), r in runs.items() if av % 2 == 0 and dv >= 1)
-                nonneg = all(not r for (av, dv), r in runs.items() if dv == 0)
-            except Unknown:
-                even_only = nonneg = False
-            # it works on the step of this iteration: after n and d are computed, before the step is recorded
-            placed = all(any(st_ is d_ for st_ in inloop_before) for d_ in (defs[nvar][0], defs[dvar][0])) and \
-                not any(isinstance(c_, ast.Call) and isinstance(c_.func, ast.Attribute) and c_.func.attr == "append" for st_ in inloop_before for c_ in ast.walk(st_))
-            ok_s = half and dec and even_only and placed
-        ctx.check(R("S"), "get_angle_spec_from_float:simplification-keeps-the-exponent-non-negative", nonneg,
-                  f"the simplification loop `while {src(tt)}` can decrement the exponent below 0: for an angle within float rounding of a full turn the remainder is exactly 2.0, "
-                  "the step (128, 6) simplifies to (1, -1), and a negative exponent cannot be encoded", repo.loc(m, w))
-        ctx.check(R("S"), "get_angle_spec_from_float:simplification-keeps-n/2^d", ok_s,
-                  f"the simplification of a step must halve n and decrement d together while n is even and write the pair back to its own slot ({detail})", repo.loc(m, fn))
-    elif want("S"):
-        post = fn.body[fn.body.index(lp) + 1:]
-        simp = [st for st in post if isinstance(st, ast.For)]
-        ok_s = True
-        detail = "no simplification loop"
-        if simp:
-            f = simp[0]
-            inner_while = [x for x in ast.walk(f) if isinstance(x, ast.While)]
-            ok_s = False
-            detail = "simplification loop not of the modelled shape"
-            if len(inner_while) == 1:
-                w = inner_while[0]
-                # while (a % 2) == 0 [and b > 0]: a, b = (int(a / 2) | a // 2, b - 1)
-                tt = w.test
-                a = None
-                for x in ast.walk(tt):
-                    if isinstance(x, ast.BinOp) and isinstance(x.op, ast.Mod) and _is_const(ev, m, x.right, 2) and isinstance(x.left, ast.Name):
-                        a = x.left.id
-                upd = [st for st in w.body if isinstance(st, ast.Assign)]
-                if a and len(upd) == 1 and isinstance(upd[0].targets[0], ast.Tuple) and isinstance(upd[0].value, ast.Tuple) and len(upd[0].targets[0].elts) == 2:
-                    ta, tb = [A.norm(x) for x in upd[0].targets[0].elts]
-                    va, vb = upd[0].value.elts
-                    half = A.norm(_strip_int(va)) in (f"{a}/2", f"{a}//2")
-                    dec = A.norm(vb) == f"{tb}-1"
-                    # the loop runs exactly while n is even and the exponent can still be decremented without going negative
-                    try:
-                        runs = {(av, dv): bool(G.peval(tt, {a: av, tb: dv})) for av in (2, 3, 4, 128) for dv in (0, 1, 5)}
-                        even_only = all(not r for (av, dv), r in runs.items() if av % 2 == 1) and all(r for (av, dv), r in runs.items() if av % 2 == 0 and dv >= 1)
-                        nonneg = all(not r for (av, dv), r in runs.items() if dv == 0)
-                    except Unknown:
-                        even_only = nonneg = False
-                    ok_s = ta == a and half and dec and even_only
-                    detail = f"`{src(upd[0])}` under `{src(tt)}`"
-                    ctx.check(R("S"), "get_angle_spec_from_float:simplification-keeps-the-exponent-non-negative", nonneg,
-                              f"the simplification loop `while {src(tt)}` can decrement the exponent below 0: for an angle within float rounding of a full turn the remainder is exactly 2.0, "
-                              "the step (128, 6) simplifies to (1, -1), and a negative exponent cannot be encoded", repo.loc(m, w))
-                    # the working pair starts as the step of this iteration, and the simplified pair is delivered in the step's
-                    # own position: written back to the same slot of the iterated list, or appended to a new list in iteration order
-                    tgt = f.target
-                    step = idx = None
-                    if isinstance(tgt, ast.Tuple) and len(tgt.elts) == 2 and isinstance(tgt.elts[1], ast.Tuple) and isinstance(f.iter, ast.Call) and dotted(f.iter.func) == "enumerate":
-                        idx, step = A.norm(tgt.elts[0]), [A.norm(x) for x in tgt.elts[1].elts]
-                    elif isinstance(tgt, ast.Tuple) and len(tgt.elts) == 2 and all(isinstance(x, ast.Name) for x in tgt.elts):
-                        step = [A.norm(x) for x in tgt.elts]
-                    inits = {}
-                    for st2 in f.body:
-                        if st2 is w or any(st2 is y for y in ast.walk(w)):
-                            break
-                        if isinstance(st2, ast.Assign) and isinstance(st2.targets[0], ast.Tuple) and isinstance(st2.value, ast.Tuple):
-                            inits.update({A.norm(t_): A.norm(v_) for t_, v_ in zip(st2.targets[0].elts, st2.value.elts)})
-                        elif isinstance(st2, ast.Assign) and isinstance(st2.targets[0], ast.Name):
-                            inits[st2.targets[0].id] = A.norm(st2.value)
-                    init_ok = step is not None and ((inits.get(a) == step[0] and inits.get(tb) == step[1]) or (a == step[0] and tb == step[1]))
-                    pair = f"({a},{tb})"
-                    fdefs = {k_: A.norm(v_) for st2 in f.body if isinstance(st2, ast.Assign) and isinstance(st2.targets[0], ast.Name) for k_, v_ in [(st2.targets[0].id, st2.value)]}
-                    delivered = False
-                    for st2 in f.body:
-                        if isinstance(st2, ast.Assign) and isinstance(st2.targets[0], ast.Subscript) and A.norm(st2.value) == pair:
-                            delivered = idx is not None and A.norm(st2.targets[0].slice) == idx and isinstance(f.iter, ast.Call) and A.norm(st2.targets[0].value) == A.norm(f.iter.args[0])
-                        if isinstance(st2, ast.Expr) and isinstance(st2.value, ast.Call) and isinstance(st2.value.func, ast.Attribute) and st2.value.func.attr == "append" and len(st2.value.args) == 1:
-                            arg = A.norm(st2.value.args[0])
-                            if arg == pair or fdefs.get(arg) == pair:
-                                out_list = A.norm(st2.value.func.value)
-                                fresh = any(isinstance(s3, ast.Assign) and A.norm(s3.targets[0]) == out_list and isinstance(s3.value, ast.List) and not s3.value.elts for s3 in post)
-                                returned = any(isinstance(r_.value, ast.Name) and r_.value.id == out_list for r_ in A.returns(fn))
-                                delivered = fresh and returned
-                    ok_s = ok_s and init_ok and delivered
-        ctx.check(R("S"), "get_angle_spec_from_float:simplification-keeps-n/2^d", ok_s,
-                  f"the simplification of a step must halve n and decrement d together while n is even and write the pair back to its own slot ({detail})", repo.loc(m, fn))
-    if want("F"):
-        check_filter(ctx, R("F"), fn, m, lp, tol, nmax_name, default_only=default_tolerance_only)
-
-
-def _is_const(ev, m, e, value) -> bool:
-    v = ev.try_eval(e, m)
-    if v is None:
-        txt = A.norm(e)
-        v = {"np.pi": math.pi, "math.pi": math.pi, "pi": math.pi, "2*np.pi": 2 * math.pi, "2*math.pi": 2 * math.pi, "np.pi*2": 2 * math.pi, "2*pi": 2 * math.pi}.get(txt)
-    return isinstance(v, (int, float)) and abs(v - value) < 1e-12
-
-
-def check_filter(ctx, rule, fn, m, lp, tol, nmax_name, default_only=False):
-    """steps may be dropped after the loop only if they cannot occur for the tolerance asked for"""
-    repo, ev = ctx.repo, ctx.ev
-    post = fn.body[fn.body.index(lp) + 1:]
-    bounds = []
-    for st in post:
-        for x in ast.walk(st):
-            if isinstance(x, (ast.ListComp, ast.GeneratorExp)) and x.generators and x.generators[0].ifs:
-                for cond in x.generators[0].ifs:
-                    bounds.append((cond, x))
-            if isinstance(x, ast.Call) and dotted(x.func) == "filter":
-                bounds.append((x.args[0], x))
-    default_tol = None
-    a = fn.args
-    names = [p.arg for p in a.args]
-    if tol in names and len(a.defaults) >= len(names) - names.index(tol):
-        default_tol = ev.try_eval(a.defaults[names.index(tol) - (len(names) - len(a.defaults))], m)
-    nmax = 255
-    for st in fn.body:
-        if isinstance(st, ast.Assign) and nmax_name and A.norm(st.targets[0]) == nmax_name:
-            nmax = ev.try_eval(st.value, m) or 255
-    if nmax_name and not any(isinstance(st, ast.Assign) and A.norm(st.targets[0]) == nmax_name for st in fn.body):
-        nmax = ev.try_eval(ast.Name(id=nmax_name, ctx=ast.Load()), m) or 255
-    for tl, label in ((default_tol, "the default tolerance"),) + (() if default_only else ((MIN_TOL, f"tolerance {MIN_TOL:g}"),)):
-        if not isinstance(tl, (int, float)) or tl <= 0:
-            ctx.error(rule, f"tolerance for {label} could not be evaluated")
-            continue
-        dmax = math.floor(math.log2(nmax / tl))  # largest exponent the loop can produce: remainder > tol
-        bad = None
-        for cond, node in bounds:
-            # the filter keeps a step iff cond holds; find the loop variable for d: a Name compared with a constant
-            kept = None
-            if isinstance(cond, ast.Compare) and len(cond.ops) == 1 and isinstance(cond.left, ast.Name):
+            tol_default = ev.eval(fn.args.defaults[-1], m)
+        except Unknown:
+            tol_default = None
+    if not isinstance(tol_default, float):
+        raise AnalysisError("get_angle_spec_from_float: the default tolerance is not a float constant")
+    sc = C.Scenario()
+    sc.max_depth = 30
+    sc.max_steps = 20000
+    sc.externals.update({"numpy.floor": lambda x: float(math.floor(x)), "numpy.ceil": lambda x: float(math.ceil(x)), "numpy.log2": math.log2, "numpy.round": lambda x, *a_: float(round(x, *a_)),
+                         "numpy.rint": lambda x: float(round(x)), "numpy.abs": abs, "numpy.fabs": abs, "numpy.trunc": lambda x: float(math.trunc(x)), "numpy.mod": lambda a_, b_: a_ % b_,
+                         "numpy.fmod": math.fmod, "numpy.power": lambda a_, b_: a_ ** b_, "numpy.isclose": math.isclose, "numpy.sign": lambda x: (x > 0) - (x < 0),
+                         "math.floor": math.floor, "math.ceil": math.ceil, "math.log2": math.log2, "math.fmod": math.fmod, "math.trunc": math.trunc, "math.isclose": math.isclose,
+                         "math.frexp": math.frexp, "math.ldexp": math.ldexp, "math.isfinite": math.isfinite})
+    angles, tols = expansion_domain(default_tolerance_only)
+    bad = {}
+    n_runs = 0
+    two_pi = Fraction(2 * math.pi)
+    try:
+        for tol in tols:
+            for angle in angles:
+                n_runs += 1
+                I = C.Interp(repo, ev, sc, None)
+                I.steps = 0
+                what = f"get_angle_spec_from_float({angle!r}" + (f", tol={tol!r})" if tol is not None else ")")
                 try:
-                    kept = all(bool(G.peval(cond, {cond.left.id: dd})) for dd in range(0, dmax + 1))
-                except Unknown:
-                    kept = None
-            if kept is None:
-                ctx.error(rule, f"filter `{src(cond)}` after the expansion is outside the modelled shape (<exponent> <op> <constant>)")
-                continue
-            if not kept:
-                bad = src(cond)
-        ctx.check(rule, f"get_angle_spec_from_float:no-step-dropped-above-{label.replace(' ', '-')}", bad is None,
-                  f"after the expansion only steps with `{bad}` are kept, but for {label} ({tl:g}, in units of pi) the loop produces exponents up to {dmax}: "
-                  f"those steps are dropped and the returned sequence misses the angle by up to {nmax}/2^(bound) * pi, above the tolerance", repo.loc(m, fn),
-                  sample={"tolerance": tl, "largest_exponent": dmax, "filters": [src(c) for c, _ in bounds]})
+                    out = I.call_function(m, fn, [angle], {} if tol is None else {params[1]: tol})
+                except C.EvalRaise as ex_:
+                    bad.setdefault("G:the-call-returns", f"{what} raises {ex_.exc_name} ({ex_})")
+                    continue
+                except C.StepLimit:
+                    bad.setdefault("G:the-call-returns", f"{what} does not return within {sc.max_steps} interpreter steps")
+                    continue
+                t_ = tol if tol is not None else tol_default
+                if isinstance(out, tuple):
+                    out = list(out)
+                if not isinstance(out, list) or not all(isinstance(s_, (tuple, list)) and len(s_) == 2 for s_ in out):
+                    bad.setdefault("B:steps-are-encodable", f"{what} returns {out!r}, not a list of (n, d) steps")
+                    continue
+                enc = [s_ for s_ in out if not all(isinstance(x_, int) and not isinstance(x_, bool) for x_ in s_) or not (0 <= s_[0] <= n_max) or not (0 <= s_[1] <= n_max)]
+                if enc:
+                    bad.setdefault("B:steps-are-encodable", f"{what} returns the step {enc[0]!r}: numerator and exponent must be integers in 0..{n_max} (the {bits}-bit immediate fields of the rotation instruction)")
+                    continue
+                total = sum((Fraction(s_[0], 2 ** s_[1]) for s_ in out), Fraction(0))
+                # the angle modulo a full turn, in units of pi (exact rationals of the float constants; the float reduction the code itself
+                # performs may differ from this by a few ulps of the angle: allowed for in `slack`)
+                red = Fraction(angle) % two_pi
+                want = red / Fraction(math.pi)
+                slack = Fraction(1, 10 ** 12) + abs(Fraction(angle)) / 10 ** 15
+                err = min(abs(total - want), abs(total - want + 2), abs(total - want - 2))
+                if err > Fraction(t_) + slack:
+                    over = total > want and abs(total - want) == err
+                    key = "G:step-never-overshoots" if over else "G:sum-within-the-tolerance"
+                    bad.setdefault(key, f"{what} returns {out!r}: the steps add up to {float(total)!r} pi, the angle modulo 2 pi is {float(want)!r} pi - off by {float(err):.3e} with a tolerance of {t_!r}")
+    except AnalysisError as ex_:
+        ctx.error(R("G"), f"get_angle_spec_from_float cannot be executed: {ex_}")
+        return
+    ctx.anchor(R("G"), "angle decompositions executed", n_runs, 900 if not default_tolerance_only else 180)
+    loc = repo.loc(m, fn)
+    for key, text in (("G:the-call-returns", "the decomposition does not return for a finite angle"),
+                      ("G:sum-within-the-tolerance", "the steps do not add up to the angle modulo 2 pi within the tolerance"),
+                      ("G:step-never-overshoots", "the steps add up to more than the angle by more than the tolerance (a step that overshoots leaves a negative remainder, which the one-sided loop test takes for `done`)"),
+                      ("B:steps-are-encodable", "a step does not fit the rotation instruction's immediate fields")):
+        letter, name = key.split(":")
+        ctx.check(R(letter), f"get_angle_spec_from_float:{name}", key not in bad, f"{text}: {bad.get(key)}", loc, sample={"runs": n_runs})
 
 
 def rotation_builder_run(ctx, b, fn, kw, steps):
@@ -595,24 +272,24 @@ SP_FILE = "netqasm/sdk/toolbox/state_prep.py"
 BF = "netqasm/sdk/builder.py"
 _POST_SIMPL = "    # Check if some of the (n, d)'s can be simplified, i.e. if `n = b * 2 ^ m` for some `m` and `b`\n    for i, (n, d) in enumerate(nds):\n        n_new, d_new = n, d\n        while (n_new % 2) == 0 and d_new > 0:\n            n_new, d_new = (int(n_new / 2), d_new - 1)\n        nds[i] = (n_new, d_new)\n"
 SEEDS = [
-    dict(id="c19-inloop-simplification-unguarded", expect="C19.S", construct="exponent-non-negative",
+    dict(id="c19-inloop-simplification-unguarded", expect="C19.B", construct="steps-are-encodable",
          edits=[(SP_FILE, "        nds.append((n, d))\n        rest -= n / 2**d\n", "        rest -= n / 2**d\n        while n % 2 == 0:\n            n, d = n // 2, d - 1\n        nds.append((n, d))\n"), (SP_FILE, _POST_SIMPL, "")]),
-    dict(id="c19-inloop-simplification-halves-n-only", expect="C19.S", construct="simplification-keeps-n/2^d",
+    dict(id="c19-inloop-simplification-halves-n-only", expect="C19.G", construct="sum-within-the-tolerance",
          edits=[(SP_FILE, "        nds.append((n, d))\n        rest -= n / 2**d\n", "        rest -= n / 2**d\n        while d > 0 and n % 2 == 0:\n            n, d = n // 2, d\n        nds.append((n, d))\n"), (SP_FILE, _POST_SIMPL, "")]),
     dict(id="c19-round-to-nearest", file=SP_FILE, expect="C19.G", construct="step-never-overshoots", old="        n = int(np.floor(rest * 2**d))", new="        n = int(np.round(rest * 2**d))"),
     dict(id="c19-tolerance-scaled-by-pi", file=SP_FILE, expect="C19.G", construct="within-the-tolerance", old="    while rest > tol:", new="    tol_rest = tol * np.pi\n    while rest > tol_rest:"),
     dict(id="c19-ceil-numerator", file=SP_FILE, expect="C19.G", construct="step-never-overshoots", old="        n = int(np.floor(rest * 2**d))", new="        n = int(np.ceil(rest * 2**d))"),
-    dict(id="c19-subtract-other-step", file=SP_FILE, expect="C19.G", construct="recorded-step-is-the-subtracted-step", old="        rest -= n / 2**d", new="        rest -= n / 2 ** (d + 1)"),
-    dict(id="c19-ceil-exponent", file=SP_FILE, expect="C19.B", construct="exponent-is-floor", old="        d = int(np.floor(np.log2(n_max / rest)))", new="        d = int(np.ceil(np.log2(n_max / rest)))"),
-    dict(id="c19-nmax-nine-bits", file=SP_FILE, expect="C19.B", construct="n_max=", old="    n_max = 2**IMMEDIATE_BITS - 1", new="    n_max = 2 ** (IMMEDIATE_BITS + 1) - 1"),
-    dict(id="c19-no-assert", file=SP_FILE, expect="C19.B", construct="numerator-checked", old="        assert n <= n_max, \"Something went wrong, n is bigger than n_max\"\n", new=""),
-    dict(id="c19-no-modulo", file=SP_FILE, expect="C19.M", construct="modulo-a-full-turn", old="    angle %= 2 * np.pi\n", new=""),
-    dict(id="c19-units", file=SP_FILE, expect="C19.M", construct="units-of-pi", old="    rest = angle / np.pi\n", new="    rest = angle / (2 * np.pi)\n"),
-    dict(id="c19-step-cap-three", file=SP_FILE, expect="C19.G", construct="no-earlier-stop", old="    while rest > tol:", new="    while rest > tol and len(nds) <= 2:"),
-    dict(id="c19-simplify-unbounded", file=SP_FILE, expect="C19.S", construct="exponent-non-negative", old="        while (n_new % 2) == 0 and d_new > 0:", new="        while (n_new % 2) == 0:"),
-    dict(id="c19-simplify-d-only", file=SP_FILE, expect="C19.S", construct="simplification", old="            n_new, d_new = (int(n_new / 2), d_new - 1)", new="            n_new, d_new = (int(n_new / 2), d_new - 2)"),
-    dict(id="c19-filter-below-default-tolerance", file=SP_FILE, expect="C19.F", construct="default-tolerance", old="        nds[i] = (n_new, d_new)\n    return nds\n", new="        nds[i] = (n_new, d_new)\n    nds = [(n, d) for (n, d) in nds if d < 16]\n    return nds\n"),
-    dict(id="c19-filter-32-again", file=SP_FILE, expect="C19.F", construct="tolerance-1e-09", old="        nds[i] = (n_new, d_new)\n    return nds\n", new="        nds[i] = (n_new, d_new)\n    nds = [(n, d) for (n, d) in nds if d < 32]\n    return nds\n"),
+    dict(id="c19-subtract-other-step", file=SP_FILE, expect="C19.G", construct="sum-within-the-tolerance", old="        rest -= n / 2**d", new="        rest -= n / 2 ** (d + 1)"),
+    dict(id="c19-ceil-exponent", file=SP_FILE, expect="C19.G", construct="the-call-returns", old="        d = int(np.floor(np.log2(n_max / rest)))", new="        d = int(np.ceil(np.log2(n_max / rest)))"),
+    dict(id="c19-nmax-nine-bits", file=SP_FILE, expect="C19.B", construct="steps-are-encodable", old="    n_max = 2**IMMEDIATE_BITS - 1", new="    n_max = 2 ** (IMMEDIATE_BITS + 1) - 1"),
+    # (removing the `assert n <= n_max` changes no result: with the exponent chosen by floor(log2(n_max / rest)) the assertion never fires; not a breaking change)
+    dict(id="c19-no-modulo", file=SP_FILE, expect="C19.G", construct="sum-within-the-tolerance", old="    angle %= 2 * np.pi\n", new=""),
+    dict(id="c19-units", file=SP_FILE, expect="C19.G", construct="sum-within-the-tolerance", old="    rest = angle / np.pi\n", new="    rest = angle / (2 * np.pi)\n"),
+    dict(id="c19-step-cap-three", file=SP_FILE, expect="C19.G", construct="sum-within-the-tolerance", old="    while rest > tol:", new="    while rest > tol and len(nds) <= 2:"),
+    dict(id="c19-simplify-unbounded", file=SP_FILE, expect="C19.B", construct="steps-are-encodable", old="        while (n_new % 2) == 0 and d_new > 0:", new="        while (n_new % 2) == 0:"),
+    dict(id="c19-simplify-d-only", file=SP_FILE, expect="C19.G", construct="sum-within-the-tolerance", old="            n_new, d_new = (int(n_new / 2), d_new - 1)", new="            n_new, d_new = (int(n_new / 2), d_new - 2)"),
+    dict(id="c19-filter-below-default-tolerance", file=SP_FILE, expect="C19.G", construct="sum-within-the-tolerance", old="        nds[i] = (n_new, d_new)\n    return nds\n", new="        nds[i] = (n_new, d_new)\n    nds = [(n, d) for (n, d) in nds if d < 16]\n    return nds\n"),
+    dict(id="c19-filter-32-again", file=SP_FILE, expect="C19.G", construct="sum-within-the-tolerance", old="        nds[i] = (n_new, d_new)\n    return nds\n", new="        nds[i] = (n_new, d_new)\n    nds = [(n, d) for (n, d) in nds if d < 32]\n    return nds\n"),
     dict(id="c19-builder-swaps-n-d", file=BF, expect="C19.E", construct="one-rotation-per-step", old="                    n=n,\n                    d=d,\n                )\n            return", new="                    n=d,\n                    d=n,\n                )\n            return"),
     dict(id="c19-builder-first-step-only", file=BF, expect="C19.E", construct="one-rotation-per-step", old="            for n, d in nds:\n", new="            for n, d in nds[:1]:\n"),
     dict(id="c19-rot-y-drops-angle", file="netqasm/sdk/qubit.py", expect="C19.E", construct="Qubit.rot_Y",
